@@ -128,7 +128,9 @@ def cmd_report(a):
         caught = sorted(p for p, v in res.items() if v.get("exit") == 1)
         quiet = sorted(p for p, v in res.items() if v.get("exit") == 0)
         keys = "; ".join("%s: %s" % (p, ", ".join(res[p]["keys"][:2])) for p in caught)
-        rows.append("| %s | %s | %s | %s | %s |" % (sid, m.get("property"), ", ".join(caught) or "-", ", ".join(quiet) or "-", keys.replace("|", "/")[:300]))
+        if m.get("obsolete"):
+            keys = "OBSOLETE: " + m["obsolete"]
+        rows.append("| %s | %s | %s | %s | %s |" % (sid, m.get("property"), ", ".join(caught) or "-", ", ".join(quiet) or "-", keys.replace("|", "/")[:420]))
     out = ["# Changes seeded by independent sub-agents vs the checks (quick tier)", "",
            "Each change was written by a fresh sub-agent that saw only the property text and a scratch worktree of /repo, was confirmed there (its demo fails with",
            "the change and passes without; the repository's 404 tests still pass), and is kept as `seeded/<id>/patch.diff` + demo + `meta.json`.",
